@@ -36,7 +36,7 @@ enum StmtK { ST_DECL, ST_DEFAULT, ST_ASSIGN, ST_IF, ST_ELSE, ST_ELSEIF, ST_ELSEI
 struct Stmt {
 	StmtK k = ST_DECL; Ty ty; std::string bits; int x = 0; std::vector<Sel> path; Expr e; std::vector<Stmt> body;
 };
-struct Program { std::vector<Ty> ins; std::vector<Stmt> stmts; };
+struct Program { std::vector<Ty> ins; std::vector<Stmt> stmts; bool aliasPattern = false; };
 
 static void printPath(std::ostream &o, const std::vector<Sel> &p) {
 	o << p.size();
@@ -120,6 +120,7 @@ static std::vector<Stmt> parseStmts(std::istream &in) {
 struct VarInfo { Ty ty; bool dflt; int depth; bool input; };
 struct Gen {
 	Rng &rng; int maxDepth; int budget; bool malformed = false; bool didMalform = false;
+	bool aliasPending = false;   // pattern seed still to be emitted: dynamic selections on one vector that share index variable / width / option count
 	std::vector<VarInfo> vars;
 	int depth = 0;
 	Gen(Rng &r, int md, int b) : rng(r), maxDepth(md), budget(b) {}
@@ -217,9 +218,81 @@ struct Gen {
 	}
 	Ty genTy() { if (rng.chance(2, 5)) return Ty{}; static const std::vector<int> ws = {1, 2, 3, 4, 4, 5, 6, 8}; return Ty{false, rng.pick(ws)}; }
 
+
+	// ---- pattern seed: selections that differ only in one component of the frontend's alias-cache key ------------------------------
+	// The frontend caches slice aliases per vector (BaseBitVector::m_rangeAlias, keyed by BitVectorSliceStatic/Dynamic::operator<:
+	// parent, offset multiplier, max index, offset signal, width). `v.part(parts, idx)` (multiplier = part width) and `v(idx, w)`
+	// (multiplier 1) on the same vector with the SAME index signal, w == width/parts and parts == 2^idxWidth agree in every key
+	// component except the multiplier; random generation never produces that coincidence, this pattern does, together with the
+	// near-misses (same index, other width / other part count; other index variable of the same width; x[idx]; a static slice;
+	// the index variable reassigned in between), as reads and writes in both orders, inside and outside IF scopes.
+	int findOrDecl(std::vector<Stmt> &out, Ty t, bool allowInput, int avoid = -1) {
+		auto c = varsOf([&](const VarInfo &v) { return v.ty == t && !v.dflt && (allowInput || !v.input); });
+		c.erase(std::remove(c.begin(), c.end(), avoid), c.end());
+		if (!c.empty() && rng.chance(2, 3)) return c[rng.below(c.size())];
+		Stmt d; d.k = ST_DECL; d.ty = t; d.e = genExpr(t, 2); out.push_back(d); vars.push_back({t, false, depth, false}); budget--;
+		return (int)vars.size() - 1;
+	}
+	void genAliasPattern(std::vector<Stmt> &out) {
+		aliasPending = false;
+		int iw = rng.chance(3, 5) ? 1 : 2;
+		int w = (int)rng.range(2, 4);
+		int parts = 1 << iw, W = parts * w;              // part width == slice width, parts == 2^idxWidth
+		int vx = findOrDecl(out, Ty{false, W}, true);
+		int ix = findOrDecl(out, Ty{false, iw}, true, vx);
+		int ix2 = rng.chance(1, 2) ? findOrDecl(out, Ty{false, iw}, true, ix) : -1;
+		if (ix2 == vx) ix2 = -1;
+		auto selTy = [&](const Sel &s) {
+			switch (s.k) { case S_SLICE: return Ty{false, s.b}; case S_DSLICE: return Ty{false, s.b}; case S_DPART: return Ty{false, W / s.b}; default: return Ty{}; }
+		};
+		std::vector<Sel> plan;
+		plan.push_back({S_DPART, ix, parts}); plan.push_back({S_DSLICE, ix, w});
+		if (rng.chance(1, 2)) std::swap(plan[0], plan[1]);
+		int extra = (int)rng.below(3);
+		for (int i = 0; i < extra; i++) {
+			Sel s{};
+			switch (rng.below(8)) {
+				case 0: { int w2 = (int)rng.range(1, W - (parts - 1)); s = {S_DSLICE, ix, w2}; break; }            // same index, (mostly) other width
+				case 1: { std::vector<int> d; for (int q = parts; q <= W; q++) if (W % q == 0) d.push_back(q);   /* >= 2^idxWidth: every index value stays in range */ s = {S_DPART, ix, d[rng.below(d.size())]}; break; } // other part count
+				case 2: s = (ix2 >= 0) ? Sel{S_DSLICE, ix2, w} : Sel{S_DSLICE, ix, w}; break;                          // other index variable, same widths
+				case 3: s = (ix2 >= 0) ? Sel{S_DPART, ix2, parts} : Sel{S_DPART, ix, parts}; break;
+				case 4: s = {S_DBIT, ix, 0}; break;                                                                    // x[idx]
+				case 5: s = {S_DPART, ix, W}; break;                                                                   // 1-bit parts (vs x[idx])
+				case 6: { int off = (int)rng.below(W - w + 1); s = {S_SLICE, off, w}; break; }                         // static slice of the same width
+				default: s = rng.chance(1, 2) ? Sel{S_DPART, ix, parts} : Sel{S_DSLICE, ix, w}; break;                  // the colliding forms again
+			}
+			plan.insert(plan.begin() + rng.below(plan.size() + 1), s);
+		}
+		for (size_t i = 0; i < plan.size(); i++) {
+			const Sel &s = plan[i];
+			Ty st = selTy(s);
+			if (i > 0 && rng.chance(1, 6)) {               // near miss: the index signal gets a new driver in between (other node port)
+				Stmt a; a.k = ST_ASSIGN; a.x = ix; a.e = genExpr(Ty{false, iw}, 1); out.push_back(a); budget--;
+			}
+			bool wrap = depth < maxDepth && rng.chance(1, 3);
+			Stmt acc;
+			bool write = rng.chance(1, 2);
+			if (write) { acc.k = ST_ASSIGN; acc.x = vx; acc.path = {s}; acc.e = genExpr(st, 1); }
+			else {
+				Expr r; r.k = E_READ; r.ty = st; r.x = vx; r.path = {s};
+				auto c = varsOf([&](const VarInfo &v) { return v.ty == st && !v.dflt && !v.input; });
+				c.erase(std::remove(c.begin(), c.end(), vx), c.end()); c.erase(std::remove(c.begin(), c.end(), ix), c.end()); c.erase(std::remove(c.begin(), c.end(), ix2), c.end());
+				if (c.empty()) {   // the read needs a visible destination: declare it outside the (possible) scope
+					Stmt d; d.k = ST_DECL; d.ty = st; d.e = constOf(st); out.push_back(d); vars.push_back({st, false, depth, false}); budget--;
+					c.push_back((int)vars.size() - 1);
+				}
+				acc.k = ST_ASSIGN; acc.x = c[rng.below(c.size())]; acc.e = r;
+			}
+			budget--;
+			if (wrap) { Stmt f; f.k = ST_IF; f.e = genCond(nullptr); f.body.push_back(acc); out.push_back(f); budget--; }
+			else out.push_back(acc);
+		}
+	}
+
 	void genBlock(std::vector<Stmt> &out, int n) {
 		size_t nvars = vars.size();
 		while (n > 0 && budget > 0) {
+			if (aliasPending && rng.chance(1, 4)) { genAliasPattern(out); n--; continue; }
 			unsigned k = (unsigned)rng.below(100);
 			budget--; n--;
 			if (k < 12) {
@@ -288,7 +361,9 @@ static Program genProgram(Rng &rng, int maxStmts, int maxDepth, bool malformed) 
 		if (!wide && bits + t.w > 10) t = Ty{};
 		bits += t.w; p.ins.push_back(t); g.vars.push_back({t, false, 0, true});
 	}
+	p.aliasPattern = g.aliasPending = rng.chance(1, 4);
 	g.genBlock(p.stmts, 1000);
+	if (g.aliasPending) g.genAliasPattern(p.stmts);   // not placed inside the block: append at top level
 	return p;
 }
 
@@ -457,7 +532,7 @@ struct Exec {
 static bool hasDefault(const std::vector<Stmt> &ss) { for (auto &s : ss) if (s.k == ST_DEFAULT || hasDefault(s.body)) return true; return false; }
 
 static void runCase(std::ostream &o, const std::string &id, const Program &p, Rng &vrng, int exhBits, int nRandom) {
-	o << "case " << id << "\n";
+	o << "case " << id << (p.aliasPattern ? " alias" : "") << "\n";
 	o << "ins"; for (auto &t : p.ins) o << ' ' << tyStr(t); o << '\n';
 	printStmts(o, p.stmts);
 	o << "endprog\n";
